@@ -514,7 +514,7 @@ func ruleM3u8Fields(c *Ctx) {
 		}
 		// seq: load of sequenceNo of segments[0]
 		seqOK := false
-		if f, base, ok := fieldLoad(stripConv(seq)); ok && f.Name() == "sequenceNo" {
+		if f, base, ok := fieldLoad(stripConv(seq)); ok && theProgram.baseFieldName(f) == "sequenceNo" {
 			if u, ok := base.(*ssa.UnOp); ok {
 				if ia, ok := u.X.(*ssa.IndexAddr); ok {
 					if i, ok := evalInt(ia.Index); ok && i == 0 {
@@ -529,7 +529,7 @@ func ruleM3u8Fields(c *Ctx) {
 		walkDeps(dur, func(x ssa.Value) bool {
 			if ph, ok := x.(*ssa.Phi); ok {
 				for _, e := range ph.Edges {
-					if f, _, ok := fieldLoad(e); ok && f.Name() == "duration" {
+					if f, _, ok := fieldLoad(e); ok && theProgram.baseFieldName(f) == "duration" {
 						// the block assigning it must be guarded by duration > max
 						maxOK = true
 					}
@@ -540,7 +540,7 @@ func ruleM3u8Fields(c *Ctx) {
 		gt := false
 		instrs(m3, func(ins ssa.Instruction) {
 			if b, ok := ins.(*ssa.BinOp); ok && b.Op == token.GTR {
-				if f, _, ok := fieldLoad(b.X); ok && f.Name() == "duration" {
+				if f, _, ok := fieldLoad(b.X); ok && theProgram.baseFieldName(f) == "duration" {
 					if _, isPhi := b.Y.(*ssa.Phi); isPhi {
 						gt = true
 					}
@@ -593,7 +593,7 @@ func ruleM3u8Fields(c *Ctx) {
 			continue
 		}
 		f, base, ok1 := fieldLoad(bo.X)
-		if ok1 && f.Name() == "sequenceNo" && origin(bo.Y) == ssa.Value(sg.Params[1]) {
+		if ok1 && theProgram.baseFieldName(f) == "sequenceNo" && origin(bo.Y) == ssa.Value(sg.Params[1]) {
 			sels = append(sels, sel{base, b.Succs[0]})
 		}
 	}
@@ -643,7 +643,7 @@ func ruleM3u8Fields(c *Ctx) {
 			return
 		}
 		f, base, ok := fieldLoad(cc.Value)
-		if ok && f.Name() == "file" && selected(base, ins.Block(), 0) {
+		if ok && theProgram.baseFieldName(f) == "file" && selected(base, ins.Block(), 0) {
 			okSeg = true
 		}
 	})
